@@ -327,6 +327,48 @@ theorem C20_forgotten_headers (c : Conn) (sid : Int) (block : Bytes) (es : Bool)
       exact ⟨trivial, trivial⟩
     · intro _ _ hf; exact hf.elim
 
+/-- **what "replenishes" means for the ledger**: charging a frame to a window manager and handing the same bytes back as
+    processed leaves `current_window_size + bytes_processed` — the window the peer sees plus what the next
+    WINDOW_UPDATE will return — exactly what it was, and the maximum untouched; whether a WINDOW_UPDATE comes out now
+    or later.  Hypothesis: no more was acknowledged so far than was received (`current + processed ≤ max`, the
+    ledger invariant of C05; with it the cap `min processed (max - current)` never bites). -/
+theorem C20_credit_conserved (w : WindowManager) (n : Int)
+    (hinv : w.current_window_size + w.bytes_processed ≤ w.max_window_size) :
+    (((w.window_consumed n).2.process_bytes n).2.current_window_size
+      + ((w.window_consumed n).2.process_bytes n).2.bytes_processed
+        = w.current_window_size + w.bytes_processed) ∧
+    ((w.window_consumed n).2.process_bytes n).2.max_window_size = w.max_window_size := by
+  unfold WindowManager.process_bytes WindowManager.maybe_update_window WindowManager.window_consumed
+  simp only
+  repeat' split
+  all_goals (simp only)
+  all_goals exact ⟨by omega, trivial⟩
+
+/-- **DATA for a forgotten stream costs the peer nothing**: under the hypotheses of `C20_forgotten_data` and the ledger
+    invariant, after the frame the connection window plus the bytes waiting to be returned is what it was before -/
+theorem C20_forgotten_data_credit (c : Conn) (sid : Int) (payload : Bytes) (es : Bool) (fcl : Int)
+    (hno : hasStream c sid = false)
+    (hold : sid ≤ (if streamIdIsOutbound c sid then c.highestOut else c.highestIn))
+    (hopen : c.cstate = .CLIENT_OPEN ∨ c.cstate = .SERVER_OPEN)
+    (hfits : (c.inWM.window_consumed fcl).1 = .ok none)
+    (hinv : c.inWM.current_window_size + c.inWM.bytes_processed ≤ c.inWM.max_window_size) :
+    wp (receiveDataFrame sid payload es fcl)
+      (fun _ c' => c'.inWM.current_window_size + c'.inWM.bytes_processed
+          = c.inWM.current_window_size + c.inWM.bytes_processed ∧ c'.inWM.max_window_size = c.inWM.max_window_size)
+      (fun _ _ => False) c := by
+  apply wp_mono (C20_forgotten_data c sid payload es fcl hno hold hopen hfits)
+  · intro _ c' h
+    rw [h.2.2.2]
+    exact C20_credit_conserved c.inWM fcl hinv
+  · intro _ _ hf; exact hf
+
+/-- non-vacuity of the ledger hypothesis, and a case where the WINDOW_UPDATE comes out at once: a fresh 65535-byte
+    window that has 40000 bytes waiting, charged and credited 100 more -/
+example : (({ max_window_size := 65535, current_window_size := 20000, bytes_processed := 40000 } : WindowManager).window_consumed 100).1 = .ok none ∧
+    ((({ max_window_size := 65535, current_window_size := 20000, bytes_processed := 40000 } : WindowManager).window_consumed 100).2.process_bytes 100)
+      = (.ok (some 40100), { max_window_size := 65535, current_window_size := 60000, bytes_processed := 0 }) := by
+  constructor <;> rfl
+
 /-- non-vacuity: an open request stream that is reset has the shape the theorem talks about, and DATA racing the
     reset gets the quiet "closed" signal -/
 example : stepShape { state := .OPEN, client := some true, headersSent := true } .SEND_RST_STREAM =
